@@ -206,6 +206,10 @@ def port_trace(f, g, x0, maxcor, maxiter=12, hostile=False, x0_same_object=False
                 kw["bounds"] = [(None, None)] * int(np.size(x0))
             if inert_fd is not None:
                 kw.update(eps=inert_fd, finite_diff_rel_step=inert_fd)  # differencing settings: inert with an analytic gradient
+            if int(abs(float(np.ravel(x0)[0])) * 1e6) % 3 == 0:
+                # traced through the user's logger at a verbosity at which every routine reports (diagnostics must not evaluate anything)
+                kw.update(logger=probes.CapturingLogger("verif-c12").logger, iprint=int([99, 100, 101, 1000][int(abs(float(np.ravel(x0)[0])) * 1e6) // 3 % 4]))
+                consts["traced_through_logger"] = True
             if stop_at_callback is None:
                 res = minimize_lbfgsb(x0=(x0 if x0_same_object else np.array(x0, copy=True)), **kw)
             else:
@@ -437,6 +441,8 @@ def run(spec):
             out.count("trajectories_with_an_optimisation_nested_in_the_objective")
         if spec.get("inert_fd") is not None:
             out.count("trajectories_with_inert_differencing_settings")
+        if consts.get("traced_through_logger"):
+            out.count("trajectories_traced_through_a_logger")
         if consts.get("stopped_by_callback_at_eval") is not None:
             out.count("trajectories_stopped_by_a_callback_and_continued_from_the_result")
         if spec.get("hostile"):
